@@ -40,13 +40,14 @@ class Addr:
         old = self._ip_key
         if old is not None and old != key and self.map.addr.get(old) is self:
             del self.map.addr[old]
-            for other in list(self.map.addr.values()):
-                if other is not self and other._ip_key == old:
-                    self.map.addr[old] = other
-                    break
+            self.map._hand_over(old, self)
         self._ip_key = key
         if key is not None:
-            self.map.addr[key] = self
+            # (a name that has a mapping of its own keeps its entry:
+            # names win over addresses)
+            holder = self.map.addr.get(key)
+            if holder is None or holder.name != key:
+                self.map.addr[key] = self
 
     def update(self, *args):
         """
@@ -106,6 +107,8 @@ class Addr:
         callback done via callLater
         """
         del self.map.addr[self.name]
+        # our name may be the address of another mapping
+        self.map._hand_over(self.name, self)
         self._index_ip(None)
         self.map.notify("addrmap_expired", *[self.name], **{})
 
@@ -132,8 +135,11 @@ class AddrMap(object):
         """
 
         params = shlex.split(update)
-        if params[0] in self.addr:
-            self.addr[params[0]].update(*params)
+        # (self.addr is keyed by address as well: only an entry for
+        # this *name* is the mapping being updated)
+        known = self.addr.get(params[0], None)
+        if known is not None and known.name == params[0]:
+            known.update(*params)
 
         elif params[1] == '<error>':
             # an error for a name we do not know: nothing to remember
@@ -145,6 +151,18 @@ class AddrMap(object):
             self.addr[params[0]] = a
             a.update(*params)
             self.notify("addrmap_added", *[a], **{})
+
+    def _hand_over(self, key, leaving):
+        """
+        Internal helper. ``leaving`` gave up the by-address entry
+        ``key``: another live mapping to that address takes it.
+        """
+        if key in self.addr:
+            return
+        for other in list(self.addr.values()):
+            if other is not leaving and other._ip_key == key:
+                self.addr[key] = other
+                break
 
     def find(self, name_or_ip):
         "FIXME should make this class a dict-like (or subclass?)"
